@@ -244,8 +244,21 @@ pel_harness!(c16_pel_add_kf, 5, {
 /// remove_entry(id) on a 2-entry list: Some(entry) iff id was pending (so an ID that is not or no
 /// longer pending counts nothing); exactly id disappears.
 fn pel_remove(owners: [u8; 2]) {
+    pel_remove_opt(owners, false)
+}
+/// `unsorted`: both entries belong to one consumer whose index lists them in DECREASING ID order -
+/// the state after that consumer read the greater ID and then claimed (or was re-delivered) the
+/// smaller one; per-consumer lists are in arrival order, not in ID order.
+fn pel_remove_opt(owners: [u8; 2], unsorted: bool) {
     let ids = pre_ids::<2>();
     let mut p = ManuallyDrop::new(mk_pel(&ids, &owners));
+    if unsorted {
+        assert!(owners[0] == owners[1]);
+        match p.entries_by_consumer.get_mut(&name(owners[0])) {
+            Some(l) => l.swap(0, 1),
+            None => assert!(false, "pre-state: consumer index missing"),
+        }
+    }
     let id = any_id();
     let r = ManuallyDrop::new(p.remove_entry(&id));
     kani::cover!(r.is_some() && id == ids[1], "maximum removed");
@@ -265,6 +278,9 @@ fn pel_remove(owners: [u8; 2]) {
 }
 pel_harness!(c16_pel_remove_ab, 5, {
     pel_remove([b'a', b'b']);
+});
+pel_harness!(c16_pel_remove_aa_unsorted, 5, {
+    pel_remove_opt([b'a', b'a'], true);
 });
 
 // ---------------------------------------------------------------- PEL: transfer (XCLAIM)
